@@ -42,6 +42,9 @@ func (c14) Floors(tier string, c map[string]int64) []string {
 	if c["remove_nonlast_type"] == 0 {
 		out = append(out, "no removal of a first/middle type")
 	}
+	if c["blind_histories"] == 0 {
+		out = append(out, "no history without intermediate lookups")
+	}
 	if c["twoway_must_succeed"] == 0 {
 		out = append(out, "no AddTwoWayRel with satisfied preconditions")
 	}
@@ -269,7 +272,17 @@ func (m c14) invariants(s mSchema) (string, string) {
 }
 
 func (m c14) history(c *Ctx, ops []c14op) {
+	m.historyMode(c, ops, false)
+}
+
+// historyMode: blind = no lookup (HasType / GetType) is made between the edits; the list of types is read
+// straight from Schema.Types after every call and the lookups are only compared at the very end. A lookup
+// can refresh state that an edit left stale, so watching too closely would hide such defects.
+func (m c14) historyMode(c *Ctx, ops []c14op, blind bool) {
 	c.Count("evaluations")
+	if blind {
+		c.Count("blind_histories")
+	}
 	sc := &jsonapi.Schema{}
 	model := mSchema{}
 	nOK, nErr, maxTypes := 0, 0, 0
@@ -369,6 +382,13 @@ func (m c14) history(c *Ctx, ops []c14op) {
 		}
 		// lookups agree with the list
 		var lookErr string
+		if blind && step < len(ops)-1 {
+			if len(snap) > maxTypes {
+				maxTypes = len(snap)
+			}
+			model = snap.clone()
+			continue
+		}
 		if pi := Guard(func() {
 			for _, n := range append([]string{"", "unknown"}, c14Types...) {
 				i := snap.find(n)
@@ -438,7 +458,7 @@ func (m c14) Case(c *Ctx, r *RNG) {
 	for len(ops) < n {
 		ops = append(ops, m.genOp(r))
 	}
-	m.history(c, ops)
+	m.historyMode(c, ops, r.Bool())
 	if c.Index < 2 {
 		c.Sample(map[string]any{"history": ops})
 	}
